@@ -15,6 +15,8 @@ mod ops_full;
 mod ops_layout;
 #[cfg(feature = "full")]
 mod ops_proof;
+#[cfg(feature = "full")]
+mod ops_forge;
 #[cfg(feature = "parser")]
 mod ops_parser;
 
@@ -45,7 +47,19 @@ pub fn hexbytes(b: &[u8]) -> String {
 /// Outcome of a case.
 pub enum Out { Ok(String), Err(String) }
 
+fn vm_hwm_kb() -> u64 {
+    std::fs::read_to_string("/proc/self/status").ok().and_then(|s| s.lines().find(|l| l.starts_with("VmHWM:"))
+        .and_then(|l| l.split_whitespace().nth(1).and_then(|x| x.parse().ok()))).unwrap_or(0)
+}
+
 fn dispatch(op: &str, a: &[&str]) -> Out {
+    // timed <op> <args..> : wall time (microseconds), peak RSS (kB) and outcome class of the wrapped op
+    if op == "timed" {
+        let t0 = std::time::Instant::now();
+        let r = catch_unwind(AssertUnwindSafe(|| dispatch(a[0], &a[1..])));
+        let cls = match r { Ok(Out::Ok(_)) => "ok", Ok(Out::Err(_)) => "err", Err(_) => "panic" };
+        return Out::Ok(format!("{} {} {}", t0.elapsed().as_micros(), vm_hwm_kb(), cls));
+    }
     if let Some(o) = ops_core::run(op, a) { return o; }
     #[cfg(feature = "full")]
     if let Some(o) = ops_full::run(op, a) { return o; }
@@ -53,6 +67,8 @@ fn dispatch(op: &str, a: &[&str]) -> Out {
     if let Some(o) = ops_layout::run(op, a) { return o; }
     #[cfg(feature = "full")]
     if let Some(o) = ops_proof::run(op, a) { return o; }
+    #[cfg(feature = "full")]
+    if let Some(o) = ops_forge::run(op, a) { return o; }
     #[cfg(feature = "parser")]
     if let Some(o) = ops_parser::run(op, a) { return o; }
     panic!("HX-BAD-INPUT unknown op {}", op)
